@@ -511,6 +511,9 @@ func (s *sx) valueAtPath(path string, t types.Type) SV {
 		case u.Info()&types.IsBoolean != 0:
 			return SV{K: kBool, Path: path, Str: "input"}
 		case u.Info()&types.IsInteger != 0:
+			if _, named := t.(*types.Named); named {
+				atomTypes.Store(path, t)
+			}
 			return svInt(linA(path))
 		case u.Info()&types.IsString != 0:
 			return svOpaque(path)
@@ -877,7 +880,7 @@ func (s *sx) tryMergeDiamond(f *frame, b *ssa.BasicBlock, cv SV) *ssa.BasicBlock
 		case v0.K == kInt && v1.K == kInt && v0.L.eq(v1.L):
 			f.vals[preset{phi}] = v0
 		case v0.K == kInt && v1.K == kInt:
-			f.vals[preset{phi}] = svInt(linA("ite(" + key + "," + v0.L.String() + "," + v1.L.String() + ")"))
+			f.vals[preset{phi}] = svInt(defAtom("ite("+key+","+v0.L.String()+","+v1.L.String()+")", "ite", cv.Op, cv.L, v0.L, v1.L))
 		default:
 			// booleans and the rest: fall back to a real split
 			for _, in2 := range join.Instrs {
